@@ -8,6 +8,7 @@ The theorems reduce agreement to equalities of selection functions (index arithm
 
 Deviations of the pinned code are flags of `Cfg`; every theorem is parametric in the configuration and
 names the flags it needs off (they are off in `Cfg.fixed`, the code after the proposed fixes). -/
+set_option linter.unusedSimpArgs false
 namespace OjgVerif.C11
 open OjgVerif OjgVerif.JPath
 
@@ -68,5 +69,163 @@ theorem C11_has_full_false : ¬ C11_has_full := by
   have h3 : (getM Cfg.pinned Rep.simple w4path w4data).isEmpty = true := by decide
   rw [h2, h3] at h1
   simp at h1
+
+/-! ## Locate and Expr.Walk
+
+The model reports (normalized path, value); a normalized path is a list of member names and absolute
+indexes by construction (`Path = List Loc`). With the flags of slice.go `startEndStep` off (and, for
+Walk, `walkDescentNoSelf`) both report exactly the locations the path denotes, hence — by
+`C05.C05_located` — exactly the locations of Get's results; as multisets: Locate visits a descent parents
+first and a filter back to front, Get children first and front to back. -/
+
+theorem C11_locate (cfg : Cfg) (hn : cfg.locNegEnd = false) (hc : cfg.locStartClamp = false)
+    (x : List Frag) (d : JV) (hx : x ≠ [] ∨ cfg.locateRoot = false)
+    (ht : endsInDescent x = false) (hz : (jsize d : Int) ≤ maxEnd) :
+    (locateM cfg Rep.simple x d).Perm (eval x d) ∧ Locate.fault cfg Rep.simple x d = false := by
+  refine ⟨?_, locate_fault cfg hn hc x d⟩
+  cases x with
+  | nil =>
+    rcases hx with h | h
+    · exact absurd rfl h
+    · simp [locateM, h, eval]
+  | cons f r => exact locate_perm_eval cfg hn hc (f :: r) d ht hz
+
+/-- Locate against Get itself (the property's own comparison) -/
+theorem C11_locate_get (cfg : Cfg) (hn : cfg.locNegEnd = false) (hc : cfg.locStartClamp = false)
+    (x : List Frag) (d : JV) (hx : x ≠ [] ∨ cfg.locateRoot = false)
+    (hs : cfg.descentSiblings = false ∨ noDescAfter x = true)
+    (he : cfg.innerEmptySlice = false ∨ x.dropLast.all narrow = true)
+    (ht : endsInDescent x = false) (hz : (jsize d : Int) ≤ maxEnd) :
+    (locateM cfg Rep.simple x d).Perm (getS cfg Rep.simple x d) := by
+  rw [C05.C05_located cfg x d hs he ht hz]
+  exact (C11_locate cfg hn hc x d hx ht hz).1
+
+theorem C11_walk (cfg : Cfg) (hn : cfg.locNegEnd = false) (hc : cfg.locStartClamp = false)
+    (hw : cfg.walkDescentNoSelf = false) (x : List Frag) (d : JV)
+    (ht : endsInDescent x = false) (hz : (jsize d : Int) ≤ maxEnd) :
+    (walkM cfg Rep.simple x d).Perm (eval x d) :=
+  walk_perm_eval cfg hn hc hw x d ht hz
+
+theorem C11_walk_get (cfg : Cfg) (hn : cfg.locNegEnd = false) (hc : cfg.locStartClamp = false)
+    (hw : cfg.walkDescentNoSelf = false) (x : List Frag) (d : JV)
+    (hs : cfg.descentSiblings = false ∨ noDescAfter x = true)
+    (he : cfg.innerEmptySlice = false ∨ x.dropLast.all narrow = true)
+    (ht : endsInDescent x = false) (hz : (jsize d : Int) ≤ maxEnd) :
+    (walkM cfg Rep.simple x d).Perm (getS cfg Rep.simple x d) := by
+  rw [C05.C05_located cfg x d hs he ht hz]
+  exact C11_walk cfg hn hc hw x d ht hz
+
+/-- after the proposed fixes: every path not ending in a bare descent -/
+theorem C11_locate_walk_fixed (x : List Frag) (d : JV) (ht : endsInDescent x = false)
+    (hz : (jsize d : Int) ≤ maxEnd) :
+    (locateM Cfg.fixed Rep.simple x d).Perm (getS Cfg.fixed Rep.simple x d) ∧
+    (walkM Cfg.fixed Rep.simple x d).Perm (getS Cfg.fixed Rep.simple x d) :=
+  ⟨C11_locate_get Cfg.fixed rfl rfl x d (Or.inr rfl) (Or.inl rfl) (Or.inl rfl) ht hz,
+   C11_walk_get Cfg.fixed rfl rfl rfl x d (Or.inl rfl) (Or.inl rfl) ht hz⟩
+
+def C11_locate_full : Prop :=
+  ∀ (x : List Frag) (d : JV), endsInDescent x = false → (jsize d : Int) ≤ maxEnd →
+    (locateM Cfg.pinned Rep.simple x d).Perm (getS Cfg.pinned Rep.simple x d)
+
+/-- `$[0:-1]` on `[1,2,3]`: Locate reports three locations, Get two elements -/
+def w5path : List Frag := [.slice (some 0) (some (-1)) none]
+def w5data : JV := .arr [.int 1, .int 2, .int 3]
+
+theorem C11_locate_full_false : ¬ C11_locate_full := by
+  intro h
+  have h1 := (h w5path w5data (by decide) (by decide)).length_eq
+  have h2 : (locateM Cfg.pinned Rep.simple w5path w5data).length = 3 := by decide
+  have h3 : (getS Cfg.pinned Rep.simple w5path w5data).length = 2 := by decide
+  omega
+
+def C11_walk_full : Prop :=
+  ∀ (x : List Frag) (d : JV), endsInDescent x = false → (jsize d : Int) ≤ maxEnd →
+    (walkM Cfg.pinned Rep.simple x d).Perm (getS Cfg.pinned Rep.simple x d)
+
+/-- `$..a` on `{"a":1}`: Walk reports nothing -/
+def w6path : List Frag := [.descent, .child [97]]
+def w6data : JV := .obj [([97], .int 1)]
+
+theorem C11_walk_full_false : ¬ C11_walk_full := by
+  intro h
+  have h1 := (h w6path w6data (by decide) (by decide)).length_eq
+  have h2 : (walkM Cfg.pinned Rep.simple w6path w6data).length = 0 := by decide
+  have h3 : (getS Cfg.pinned Rep.simple w6path w6data).length = 1 := by decide
+  omega
+
+/-! ## GetNodes, FirstNode (gen data) and Get on other representations -/
+
+theorem gen_not_cut (cfg : Cfg) : (cfg.typedMapWild && decide (Rep.gen.ok = OKind.rmap)) = false := by
+  cases cfg.typedMapWild <;> rfl
+
+/-- **GetNodes is Get on gen data** (node.go's flags and `innerEmptySlice` off, and no descent after a
+fragment while `descentSiblings` is on: node.go's descent has no case for a non-container) -/
+theorem C11_nodes (cfg : Cfg) (he : cfg.innerEmptySlice = false) (hu : cfg.nodesUnionNil = false)
+    (hr : cfg.nodesFilterRev = false) (hz : cfg.nodesFilterNull = false) (x : List Frag) (d : JV)
+    (hs : cfg.descentSiblings = false ∨ noDescAfter x = true) :
+    nodesM cfg x d = getM cfg Rep.gen x d := by
+  rw [C05.machine_eq_skeleton cfg Rep.gen (gen_not_cut cfg)]
+  simp only [nodesM, getS]
+  rw [evalSel_congr (Nodes.sel cfg) (Get.sel cfg Rep.gen) cfg.descentSiblings
+    (fun f v => nodes_inner cfg he hz f v) (fun f v => nodes_last cfg hu hr hz f v) x d hs]
+
+/-- FirstNode returns the first of GetNodes' results (flags `firstNodeLast`, `nodesUnionNil`,
+`nodesFilterRev` off) -/
+theorem C11_firstnode (cfg : Cfg) (hl : cfg.firstNodeLast = false) (hu : cfg.nodesUnionNil = false)
+    (hr : cfg.nodesFilterRev = false) (x : List Frag) (d : JV) :
+    firstNodeM cfg x d = (nodesM cfg x d).head? := by
+  simp only [firstNodeM, nodesM, List.head?_map]
+  congr 1
+  apply evalSel_head_congr' (FirstNode.sel cfg) (Nodes.sel cfg) cfg.descentSiblings
+  · intro f v; rfl
+  · rfl
+  · intro f v
+    simp only [FirstNode.sel, Nodes.sel]
+    rw [firstNode_last cfg hl hu hr, head?_take_one]
+
+/-- **Get on gen nodes selects the corresponding elements** (`innerEmptySlice` off: get.go clamps the end
+of a `gen.Array` slice for a positive step only, which moves the deviation) -/
+theorem C11_repr_gen (cfg : Cfg) (he : cfg.innerEmptySlice = false) (x : List Frag) (d : JV) :
+    getM cfg Rep.gen x d = getM cfg Rep.simple x d := by
+  rw [C05.machine_eq_skeleton cfg Rep.gen (gen_not_cut cfg),
+    C05.machine_eq_skeleton cfg Rep.simple (C05.simple_not_cut cfg)]
+  simp only [getS]
+  rw [evalSel_congr' (Get.sel cfg Rep.gen) (Get.sel cfg Rep.simple) cfg.descentSiblings
+    (fun f v => get_inner_gen cfg he f v) rfl (fun f v => get_last_gen cfg f v) x d]
+
+/-- **Get on user Indexed/Keyed collections selects the corresponding elements** (every configuration) -/
+theorem C11_repr_user (cfg : Cfg) (x : List Frag) (d : JV) :
+    getM cfg ⟨.indexed, .keyed⟩ x d = getM cfg Rep.simple x d := by
+  have hcut : (cfg.typedMapWild && decide ((⟨.indexed, .keyed⟩ : Rep).ok = OKind.rmap)) = false := by
+    cases cfg.typedMapWild <;> rfl
+  rw [C05.machine_eq_skeleton cfg _ hcut, C05.machine_eq_skeleton cfg Rep.simple (C05.simple_not_cut cfg)]
+  simp only [getS]
+  rw [evalSel_congr' (Get.sel cfg ⟨.indexed, .keyed⟩) (Get.sel cfg Rep.simple) cfg.descentSiblings _ rfl _ x d]
+  · intro f v
+    cases f with
+    | wild => cases v <;> simp [Get.sel, Get.push, Get.wildKids, Rep.simple]
+    | filter p => cases v <;> simp [Get.sel, Get.push, Get.filterKids, Rep.simple, OKind.typed]
+    | descent => simp [Get.sel, Get.push, hcut, C05.simple_not_cut cfg]
+    | slice s e t => cases v <;> simp [Get.sel, Get.push, Get.slicePush, Get.normFor, Rep.simple, AK.typed]
+    | _ => rfl
+  · intro f v
+    cases f with
+    | wild => cases v <;> simp [Get.sel, Get.last, Get.wildKids, Rep.simple]
+    | filter p => cases v <;> simp [Get.sel, Get.last, Get.filterKids, Rep.simple, OKind.typed]
+    | slice s e t => cases v <;> simp [Get.sel, Get.last, Get.sliceLast, Get.normFor, Rep.simple]
+    | _ => rfl
+
+def C11_nodes_full : Prop := ∀ (x : List Frag) (d : JV), nodesM Cfg.pinned x d = getM Cfg.pinned Rep.gen x d
+
+/-- `$[5]`-style union `$[5,0]` on `[7]`: GetNodes returns a nil and the element -/
+def w7path : List Frag := [.union [.idx 5, .idx 0]]
+def w7data : JV := .arr [.int 7]
+
+theorem C11_nodes_full_false : ¬ C11_nodes_full := by
+  intro h
+  have h1 := congrArg List.length (h w7path w7data)
+  have h2 : (nodesM Cfg.pinned w7path w7data).length = 2 := by decide
+  have h3 : (getM Cfg.pinned Rep.gen w7path w7data).length = 1 := by decide
+  omega
 
 end OjgVerif.C11
